@@ -83,6 +83,13 @@ def step (s : St) (kind : String) (args impl : List String) : Option (St × Step
     let r ← rt.toInt?
     let (g, out) := doRefresh s.raw { r := effReplica r } (list? ms) (list? hs) impl
     pure (setRing s rid g, { out with branch := "new." ++ out.branch })
+  | "op", ["refreshobs", rid, ms, hs] => do
+    -- a Refresh observed from inside its health-check round (the harness judges the overlapping Locations calls:
+    -- propfail lines); in the model Refresh publishes (addrs, hash, healthy) atomically
+    let g ← getRing s rid
+    let (g', out) := doRefresh s.raw g (list? ms) (list? hs) impl
+    let during := (kv? impl "during").getD "0"
+    pure (setRing s rid g', { out with obs := out.obs ++ ["during=" ++ during], branch := "refreshobs." ++ out.branch })
   | "op", ["refresh", rid, ms, hs] => do
     let g ← getRing s rid
     let (g', out) := doRefresh s.raw g (list? ms) (list? hs) impl
